@@ -16,6 +16,7 @@ import ThaiLintModel.C10.Drv
 import ThaiLintModel.C14.Drv
 import ThaiLintModel.C15.Drv
 import ThaiLintModel.C16.Drv
+import ThaiLintModel.C17.Drv
 import ThaiLintModel.C18.Drv
 open Lean
 
@@ -33,6 +34,7 @@ def dispatch (j : Json) : Json :=
   | "C14" => ThaiLintModel.C14.handle j
   | "C15" => ThaiLintModel.C15.handle j
   | "C16" => ThaiLintModel.C16.handle j
+  | "C17" => ThaiLintModel.C17.handle j
   | "C18" => ThaiLintModel.C18.handle j
   | p => Json.mkObj [("error", s!"unknown prop {p}")]
 
